@@ -1203,3 +1203,42 @@ func (e *Engine) timeType() types.Type {
 	}
 	return nil
 }
+
+
+// unboundContracts: contracts of this module whose key names no function of a loaded package (a renamed or deleted
+// function, or a mistyped receiver): such a contract is silently not applied, so it is reported.
+func (e *Engine) unboundContracts() []string {
+	var out []string
+	for k, ct := range e.lib.Contracts {
+		i := strings.Index(k, "::")
+		if i < 0 {
+			continue
+		}
+		path, rel := k[:i], k[i+2:]
+		if !strings.HasPrefix(path, modulePath) || strings.HasSuffix(rel, "$bound") {
+			continue
+		}
+		sp := e.pkgByPath[path]
+		if sp == nil {
+			continue // package not loaded for this property
+		}
+		if _, ok := e.fnByKey[k]; ok {
+			continue
+		}
+		// an interface method contract: (Iface).Method
+		if strings.HasPrefix(rel, "(") {
+			if j := strings.Index(rel, ")."); j > 0 {
+				tn := strings.TrimPrefix(rel[1:j], "*")
+				if obj := sp.Pkg.Scope().Lookup(tn); obj != nil {
+					if _, isIface := obj.Type().Underlying().(*types.Interface); isIface {
+						continue
+					}
+				}
+			}
+		}
+		_ = ct
+		out = append(out, k)
+	}
+	sort.Strings(out)
+	return out
+}
